@@ -539,3 +539,5 @@ package ship
 //@ guarded ShipConnection.smeState, ShipConnection.smeError by ShipConnection.mux
 //@ guarded ShipConnection.handshakeTimerRunning, ShipConnection.handshakeTimerType by ShipConnection.handshakeTimerMux
 //@ guarded ShipConnection.spineBuffer by ShipConnection.bufferMux
+// the timer stop channel is never closed (checked over the whole module), so the non-blocking stop send cannot panic
+//@ neverclosed ShipConnection.handshakeTimerStopChan
